@@ -18,6 +18,7 @@ type spec struct {
 	last, app      int
 	basic, commit  int
 	sign           []int
+	badsig, nilv   []int
 }
 
 type gen struct {
@@ -63,7 +64,12 @@ func (g *gen) vs(p [][2]int) int {
 	g.nvs++
 	g.vsIDs[k] = g.nvs
 	g.vsP[g.nvs] = append([][2]int{}, p...)
-	g.ops = append(g.ops, fmt.Sprintf("vs id=%d vals=%s", g.nvs, k))
+	vd := &vsDesc{pairs: p}
+	var ord []int
+	for _, val := range vd.build().Validators {
+		ord = append(ord, addrID[string(val.Address)])
+	}
+	g.ops = append(g.ops, fmt.Sprintf("vs id=%d vals=%s ord=%s", g.nvs, k, intsStr(ord)))
 	return g.nvs
 }
 
@@ -73,10 +79,35 @@ func (g *gen) blk(s spec) int {
 	if s.hv == 0 {
 		s.hv = s.vals
 	}
+	// now and then a slot that did not sign for the block carries a nil vote or a for-block flag with
+	// an invalid signature, or a signer's signature is broken (the verifiers stop at the threshold,
+	// so the position of a broken signature matters)
+	if s.badsig == nil && s.nilv == nil && g.r.Intn(6) == 0 {
+		signed := map[int]bool{}
+		for _, x := range s.sign {
+			signed[x] = true
+		}
+		for _, pr := range g.vsP[s.vals] {
+			if signed[pr[0]] {
+				continue
+			}
+			switch g.r.Intn(4) {
+			case 0:
+				s.nilv = append(s.nilv, pr[0])
+			case 1:
+				s.badsig = append(s.badsig, pr[0])
+			}
+		}
+		if len(s.sign) > 0 && g.r.Intn(3) == 0 {
+			i := g.r.Intn(len(s.sign))
+			s.badsig = append(s.badsig, s.sign[i])
+			s.sign = append(append([]int{}, s.sign[:i]...), s.sign[i+1:]...)
+		}
+	}
 	c := s
 	g.specs[s.id] = &c
-	g.ops = append(g.ops, fmt.Sprintf("blk id=%d chain=%d h=%d t=%d vals=%d hv=%d next=%d last=%d app=%d basic=%d commit=%d sign=%s",
-		s.id, s.chain, s.h, s.t, s.vals, s.hv, s.next, s.last, s.app, s.basic, s.commit, intsStr(s.sign)))
+	g.ops = append(g.ops, fmt.Sprintf("blk id=%d chain=%d h=%d t=%d vals=%d hv=%d next=%d last=%d app=%d basic=%d commit=%d sign=%s badsig=%s nilv=%s",
+		s.id, s.chain, s.h, s.t, s.vals, s.hv, s.next, s.last, s.app, s.basic, s.commit, intsStr(s.sign), intsStr(s.badsig), intsStr(s.nilv)))
 	return s.id
 }
 
@@ -672,6 +703,89 @@ func genKnownShapes(r *rand.Rand, emit func(core.Case)) {
 	}
 }
 
+// genLifecycle: one trusted store through restarts (with and without trust options: ahead of, at,
+// behind the latest trusted height, right and wrong hashes), rollback, Cleanup, VerifyHeader and
+// small pruning sizes, with honest or partly forged providers.
+func genLifecycle(r *rand.Rand) core.Case {
+	g := newGen(r)
+	n := 5 + r.Intn(7)
+	c := g.honestChain(n, 1, 0, []int{0, 40}[r.Intn(2)])
+	forked := g.fork(c, 1+r.Intn(n-1), []int{0, 1, 2}[r.Intn(3)])
+	full := blocksOf(c.blk, 1, n)
+	p1 := g.prov(1, full, "")
+	var p2 int
+	if r.Intn(3) == 0 {
+		p2 = g.prov(1, blocksOf(forked, 1, n), "")
+	} else {
+		p2 = g.prov(1, full, "")
+	}
+	w1 := g.prov(1, full, "")
+	w2, _ := g.witnessOf(c, forked, n)
+	provs := []int{p1, p2, w1, w2}
+	num, den := g.level()
+	seq := 0
+	if r.Intn(4) == 0 {
+		seq = 1
+	}
+	prune := []int{0, 1000, 2, 3, 1, 4}[r.Intn(6)]
+	per := g.period(c)
+	mk := func(h int, hash int, primary int, wits []int, extra string) string {
+		op := fmt.Sprintf("new chain=1 period=%d h=%d hash=%d seq=%d num=%d den=%d drift=2 prune=%d primary=%d wit=%s order=%s",
+			per, h, hash, seq, num, den, prune, primary, intsStr(wits), g.order(g.nprov))
+		if extra != "" {
+			op += " " + extra
+		}
+		return op
+	}
+	h0 := 1 + r.Intn(n)
+	g.ops = append(g.ops, mk(h0, c.blk[h0], p1, []int{w1, w2}, ""))
+	now := func() int64 { return c.t[n] + int64(r.Intn(1500)) }
+	for k := 0; k < 6+r.Intn(6); k++ {
+		switch r.Intn(10) {
+		case 0, 1, 2:
+			g.ops = append(g.ops, fmt.Sprintf("verify h=%d now=%d order=%s", 1+r.Intn(n), now(), g.order(g.nprov)))
+		case 3:
+			g.ops = append(g.ops, fmt.Sprintf("update now=%d order=%s", now(), g.order(g.nprov)))
+		case 4, 5:
+			b := c.blk[1+r.Intn(n)]
+			if r.Intn(4) == 0 {
+				b = forked[1+r.Intn(n)]
+			}
+			g.ops = append(g.ops, fmt.Sprintf("vheader blk=%d now=%d order=%s", b, now(), g.order(g.nprov)))
+		case 6:
+			if r.Intn(3) == 0 {
+				g.ops = append(g.ops, "cleanup")
+				if r.Intn(4) != 0 {
+					h := 1 + r.Intn(n)
+					g.ops = append(g.ops, mk(h, c.blk[h], p1, []int{w1, w2}, "keep=1 opts=1"))
+				}
+			}
+		case 7: // restart from the store
+			pr := provs[r.Intn(2)]
+			g.ops = append(g.ops, mk(1, 0, pr, []int{w1, w2}, "keep=1 opts=0"))
+		default: // restart with trust options
+			h := 1 + r.Intn(n)
+			hash := c.blk[h]
+			switch r.Intn(12) {
+			case 0:
+				hash = forked[h]
+			case 1:
+				hash = 0
+			}
+			pr := provs[r.Intn(2)]
+			wits := []int{w1, w2}
+			if r.Intn(5) == 0 {
+				wits = []int{w2}
+			}
+			g.ops = append(g.ops, mk(h, hash, pr, wits, "keep=1 opts=1"))
+			if r.Intn(10) < 7 { // revive the session when the constructor failed
+				g.ops = append(g.ops, mk(1, 0, p1, []int{w1, w2}, "keep=1 opts=0"))
+			}
+		}
+	}
+	return core.Case{Kind: "lifecycle", Ops: g.ops}
+}
+
 func genLevels(r *rand.Rand) core.Case {
 	var ops []string
 	edge := []uint64{0, 1, 2, 3, 4, 1 << 62, 1<<63 - 1, 1 << 63, 1<<63 + 1, 1<<64 - 1, (1<<64 - 1) / 3, (1<<64-1)/3 + 1, (1<<64-1)/3 + 2, 6148914691236517206, 12297829382473034411}
@@ -699,10 +813,10 @@ func genMalformed(r *rand.Rand) core.Case {
 	w := g.prov(1, blocksOf(c.blk, 1, 3), "")
 	ops := g.ops
 	junk := []string{
-		"vs id=90 vals=1:0", "vs id=91 vals=2:1,1:1", "vs id=92 vals=-", "vs id=93", "vs vals=1:1", "vs id=94 vals=1:1:1",
-		"blk id=95 chain=1 h=0 t=1 vals=1 hv=1 next=1 last=0 app=0 basic=1 commit=1 sign=-",
-		"blk id=96 chain=1 h=1 t=1 vals=77 hv=1 next=1 last=0 app=0 basic=1 commit=1 sign=-",
-		"blk id=97 chain=1 h=1 t=1 vals=1 hv=1 next=1 last=66 app=0 basic=1 commit=1 sign=-",
+		"vs id=90 vals=1:0 ord=1", "vs id=91 vals=2:1,1:1 ord=1,2", "vs id=92 vals=- ord=-", "vs id=93", "vs vals=1:1 ord=1", "vs id=94 vals=1:1:1 ord=1", "vs id=89 vals=1:1,2:1 ord=1,1", "vs id=88 vals=1:1",
+		"blk id=95 chain=1 h=0 t=1 vals=1 hv=1 next=1 last=0 app=0 basic=1 commit=1 sign=- badsig=- nilv=-",
+		"blk id=96 chain=1 h=1 t=1 vals=77 hv=1 next=1 last=0 app=0 basic=1 commit=1 sign=- badsig=- nilv=-",
+		"blk id=97 chain=1 h=1 t=1 vals=1 hv=1 next=1 last=66 app=0 basic=1 commit=1 sign=- badsig=- nilv=-",
 		"blk id=98 chain=1 h=1 t=1 vals=1 hv=1 next=1 last=0 app=0 basic=1 commit=1",
 		"prov id=80 chain=1", "prov id=81 chain=1 blocks=55", "prov id=82 chain=1 blocks=- ov=0:xyz", "prov id=83 chain=1 blocks=- late=1",
 		"verify h=1 now=5", "verify now=5 order=1", "update order=1", "frobnicate", "new chain=1",
@@ -736,6 +850,9 @@ func generate(r *rand.Rand, tier string, emit func(core.Case)) {
 	}
 	for i := 0; i < nRandom/3; i++ {
 		emit(genTrustBand(r))
+	}
+	for i := 0; i < nRandom/3; i++ {
+		emit(genLifecycle(r))
 	}
 	for i := 0; i < nDet; i++ {
 		genDetector(r, emit)
